@@ -36,7 +36,7 @@ def column_code(ck, n):
     from _gettsim.shared import join_numpy
     perms = [list(p) for p in itertools.permutations(range(n))][1:]
     gid = c11.ints("g", n)
-    pre_g = [g.t >= 0 for g in gid.e] + [g.t <= 50 for g in gid.e]
+    pre_g = [g.t >= 0 for g in gid.e] + [g.t <= 10 ** 9 for g in gid.e]
     cases = [("grouped_count", A.grouped_count, lambda: {"group_id": gid}, pre_g)]
     for kind, col in (("sum", c11.reals("v", n)), ("sum", c11.bools("v", n)), ("mean", c11.reals("v", n)), ("max", c11.reals("v", n)), ("min", c11.ints("v", n)),
                       ("any", c11.bools("v", n)), ("all", c11.bools("v", n))):
